@@ -6,7 +6,7 @@ CONSTANTS
   PRICE = {6}
   AMOUNT = {5}
   TIME = {1}
-  DupKinds = {0, 2}
+  DupKinds = {0}
   MaxBatch = 2
 INVARIANTS TypeOK KeysDistinct
 PROPERTIES Attribution RejectUnsubscribed FieldsPreserved Quiet
